@@ -164,6 +164,35 @@ fn main() {
                 emit(kind, cap, &prog, &ex, &q, &mut out);
             }
         }
+        // weak-memory correspondence: fixed roles (thread 0 produces, thread 1 consumes), seeded random
+        // schedules, and C11-permitted STALE values injected into loads / failed compare-exchanges of
+        // the queue's cursors (sched::stale_enable); the driver replays on the release/acquire view model
+        "ras" => {
+            let kind = a[2].as_str(); let count: u64 = a[3].parse().unwrap();
+            let shard: u64 = a[4].parse().unwrap(); let nsh: u64 = a[5].parse().unwrap(); let seed: u64 = a[6].parse().unwrap();
+            let percent: u64 = a.get(7).map(|s| s.parse().unwrap()).unwrap_or(40);
+            let files: &[&'static str] = match kind { "oq" => &["safely_overflowing_index_queue.rs"], "iq" => &["index_queue.rs"], _ => &["spsc/queue.rs"] };
+            for n in 0..count {
+                if n % nsh != shard { continue; }
+                let mut rng = Rng(seed ^ n.wrapping_mul(0x2545F4914F6CDD1D) ^ 0x5157);
+                let cap = if kind == "oq" { rng.below(4) as usize } else { 1 + rng.below(3) as usize };
+                let np = 1 + rng.below(6) as usize; let nc = 1 + rng.below(6) as usize;
+                let mut p = vec![Op::AcqP]; let mut c = vec![Op::AcqC];
+                for i in 0..np { p.push(Op::Push(100 + i as u64)); }
+                for _ in 0..nc { c.push(Op::Pop); }
+                let prog = vec![p, c];
+                let q = make(kind, cap);
+                sched::stale_enable(rng.next(), percent, files);
+                let ex = run_random(rng.next(), bodies(&q, &prog));
+                let inj = sched::stale_disable();
+                let _ = writeln!(out, "C {}ra {} {}", kind, cap, prog_str(&prog));
+                print_exec(&ex, &mut out);
+                let schedv: Vec<String> = ex.choices.iter().map(|c| c.to_string()).collect();
+                let _ = writeln!(out, "S {} inj={}", schedv.join(","), inj);
+                let d = drain(&q);
+                let _ = writeln!(out, "F {}", d.iter().map(|v| v.to_string()).collect::<Vec<_>>().join(","));
+            }
+        }
         "one" => {
             let kind = a[2].as_str(); let cap: usize = a[3].parse().unwrap();
             let prog: Vec<Vec<Op>> = a[4].split('|').map(|t| t.split(',').filter(|s| !s.is_empty()).map(parse_op).collect()).collect();
